@@ -484,18 +484,98 @@ def disk_faults(acc, name, progs, cprogs, variants, sub, hist, tier):
         shutil.rmtree(base, ignore_errors=True)
 
 
+# ---------------------------------------------------------------- relatives derived from a node AFTER it ran against the cache
+def derive_after_run(acc, tier):
+    """A cacheable node object runs against a cache; a relative is THEN derived from that very object (renamed outputs / inputs /
+    name, for function nodes, interrupts and gates) and runs against the same cache with the same argument values, in one graph
+    with a renamed consumer.  Whatever is or is not a hit, every run must equal the uncached run of the same graph, and the original
+    run again afterwards must still be served its own entry (no second invocation)."""
+    import tempfile
+
+    from hypergraph import Graph
+    from hypergraph.cache import DiskCache, InMemoryCache
+
+    from ..dsl import build_node, run_async, run_sync, touch
+
+    derivs = [
+        ("with_outputs", lambda n: n.with_outputs(p="q"), {"p": "q"}, {}),
+        ("with_outputs-swap", lambda n: n.with_outputs(p="p2", p2="p"), {"p": "p2", "p2": "p"}, {}),
+        ("with_inputs", lambda n: n.with_inputs(a="b"), {}, {"a": "b"}),
+        ("with_name", lambda n: n.with_name("other"), {}, {}),
+        ("with_outputs.with_inputs", lambda n: n.with_outputs(p="q").with_inputs(a="b"), {"p": "q"}, {"a": "b"}),
+    ]
+    for runner in ("sync", "async"):
+        for bk in ("mem", "disk"):
+            for kind in ("fn1", "fn2", "interrupt"):
+                if kind == "interrupt" and runner == "sync":
+                    continue
+                for dname, derive, rn_out, rn_in in derivs:
+                    if "swap" in dname and kind != "fn2":
+                        continue
+                    for warm_first in (True, False):
+                        h = H()
+                        outs = ["p", "p2"] if kind == "fn2" else ["p"]
+                        spec = (T.interrupt if kind == "interrupt" else T.fn)("src", ["a"], outs, cache=True)
+                        if kind == "interrupt":
+                            spec["behav"] = "answer"
+                        spec = T.set_async(T.prog([spec]), runner == "async")["nodes"][0]
+                        base = build_node(spec, h)
+                        cons = build_node(T.set_async(T.prog([T.fn("use", ["p"], ["r"])]), runner == "async")["nodes"][0], h)
+                        tmp = tempfile.mkdtemp(prefix="c09d_", dir="/dev/shm" if os.path.isdir("/dev/shm") else None)
+                        cache = InMemoryCache() if bk == "mem" else DiskCache(tmp)
+                        run = (lambda g, ins, c: run_sync(g, ins, h, cache=c)) if runner == "sync" else (lambda g, ins, c: run_async(g, ins, h, None, cache=c))
+                        w = {"derive_after_run": True}
+                        try:
+                            g1 = Graph([base, cons])
+                            ins1 = {"a": ("v", 0)}
+                            ref1 = run(g1, dict(ins1), None).values
+                            if warm_first:
+                                run(g1, dict(ins1), cache)  # the base object has now been used against the cache
+                            touch(base)
+                            rel = derive(base)
+                            cons2 = cons.with_inputs(p=rn_out["p"]) if "p" in rn_out else cons
+                            g2 = Graph([rel, cons2])
+                            ins2 = {rn_in.get("a", "a"): ("v", 0)}
+                            ref2 = run(g2, dict(ins2), None).values
+                            n0 = len(h.calls)
+                            got2 = run(g2, dict(ins2), cache).values
+                            got1 = run(g1, dict(ins1), cache).values
+                            n_src = sum(1 for c in h.calls[n0:] if c.nid == "src")
+                            acc.evaluations += 5
+                            acc.key(("derive-after-run", runner, bk, kind, dname, warm_first))
+                            if got2 != ref2:
+                                acc.violation({"symptom": "derived-relative-served-wrong-entry", "derive": dname.split("-")[0], "kind": kind}, w, f"{kind} node run against the cache ({'before' if warm_first else 'only after'} deriving), relative derived by {dname}, {runner}/{bk}: cached run of the relative returned {jsonable(got2)}, uncached {jsonable(ref2)}")
+                            if got1 != ref1:
+                                acc.violation({"symptom": "original-served-wrong-entry-after-relative", "derive": dname.split("-")[0], "kind": kind}, w, f"{kind} node, relative derived by {dname}, {runner}/{bk}: the ORIGINAL graph run after the relative returned {jsonable(got1)}, uncached {jsonable(ref1)}")
+                            if warm_first and kind != "interrupt" and n_src > (0 if dname in ("with_name", "with_inputs") else 1):
+                                acc.violation({"symptom": "retained-entry-not-served", "derive": dname.split("-")[0], "kind": kind}, w, f"{kind} node, relative derived by {dname}, {runner}/{bk}: the function ran {n_src} more times although its entry (same definition, arguments and output names) was retained")
+                        except Exception as e:  # noqa: BLE001
+                            acc.violation({"symptom": "derive-after-run-raised", "derive": dname.split("-")[0], "kind": kind}, w, f"{kind} node, relative derived by {dname}, {runner}/{bk}: {type(e).__name__}: {str(e)[:150]}")
+                        finally:
+                            if bk == "disk":
+                                try:
+                                    cache._cache.close()
+                                except Exception:  # noqa: BLE001
+                                    pass
+                            shutil.rmtree(tmp, ignore_errors=True)
+
+
 def shards(tier, seed):
     out = []
     for pi, (name, progs, variants) in enumerate(programs()):
         subs = list(cacheable_subsets(progs, tier))
         for si in range(len(subs)):
             out.append((tier, seed, pi, si))
+    out.append((tier, seed, "derive-after-run", 0))
     return out
 
 
 def run_shard(shard):
     tier, seed, pi, si = shard
     acc = Acc()
+    if pi == "derive-after-run":
+        derive_after_run(acc, tier)
+        return acc
     name, progs, variants = list(programs())[pi]
     sub = list(cacheable_subsets(progs, tier))[si]
     cprogs = with_cache(progs, sub)
@@ -538,6 +618,9 @@ def coverage_extra(acc, tier, seed):
 
 def replay(rep):
     acc = Acc()
+    if rep.get("derive_after_run"):
+        derive_after_run(acc, "quick")
+        return [v["message"] for v in acc.violations.values()]
     name = rep["program"]
     _, progs, variants = next(p for p in programs() if p[0] == name)
     sub = tuple(rep["cacheable"])
